@@ -213,6 +213,25 @@ func runC19(c *Ctx) {
 				process(tok, "valid "+kind)
 				// single-character edits of payload and signature
 				ch := strings.Split(tok, ".")
+				// other base64 spellings of the same bytes (unused low bits of a final character, CR / LF anywhere):
+				// the decoded payload is the same, the signed text is not
+				for seg := 1; seg <= 2; seg++ {
+					var variants []string
+					if L := len(ch[seg]); L > 0 && L%4 != 0 {
+						for _, a := range "ABCDEFGHIJKLMNOPQRSTUVWXYZabcdefghijklmnopqrstuvwxyz0123456789-_" {
+							if byte(a) != ch[seg][L-1] {
+								variants = append(variants, ch[seg][:L-1]+string(a))
+							}
+						}
+					}
+					p := g.rng.Intn(len(ch[seg]) + 1)
+					variants = append(variants, ch[seg][:p]+"\n"+ch[seg][p:], ch[seg]+"\r\n", "\r"+ch[seg])
+					for _, v := range variants {
+						cc := append([]string{}, ch...)
+						cc[seg] = v
+						process(strings.Join(cc, "."), fmt.Sprintf("other base64 spelling of segment %d of %s", seg, kind))
+					}
+				}
 				for e := 0; e < 6; e++ {
 					seg := 1 + e%2
 					pos := g.rng.Intn(len(ch[seg]))
